@@ -30,16 +30,16 @@ MEMQ = {"tlc2.tool.queue.IStateQueue": "MemStateQueue"}
 INV = ["MCTypeOK", "C19_NilIffOwnReply", "C19_DistinctIds", "C19_NoLeakModuloKF", "NoPanic", "C19_OnlyOwn"]
 
 
-def mc_cfg(nprocs, maxrep, leak=True, inv=INV, export_every=0, idspace=65536, sendfail=True, replyids=None, view="View"):
+def mc_cfg(nprocs, maxrep, leak=True, inv=INV, export_every=0, idspace=65536, sendfail=True, replyids=None, view="View", first=1):
     procs = ", ".join("p%d" % i for i in range(1, nprocs + 1))
     rids = replyids or ", ".join(str(i) for i in range(1, nprocs + 2))
     inv = list(inv)
     if export_every:
         inv = ["Export"] + inv
-    return ("SPECIFICATION MCSpec\nCONSTANTS\n  Procs = {%s}\n  NoProc = noproc\n  IdSpace = %d\n  LeakOnSendError = %s\n"
+    return ("SPECIFICATION MCSpec\nCONSTANTS\n  Procs = {%s}\n  NoProc = noproc\n  IdSpace = %d\n  FirstId = %d\n  LeakOnSendError = %s\n"
             "  MaxReplies = %d\n  ReplyIds = {%s}\n  ExportEvery = %d\n  AllowSendFail = %s\n"
             "INVARIANTS %s\nVIEW %s\nSYMMETRY Sym\nCHECK_DEADLOCK FALSE\n" %
-            (procs, idspace, "TRUE" if leak else "FALSE", maxrep, rids, export_every or 1,
+            (procs, idspace, first, "TRUE" if leak else "FALSE", maxrep, rids, export_every or 1,
              "TRUE" if sendfail else "FALSE", " ".join(inv), view))
 
 
@@ -88,6 +88,14 @@ def model_runs(ctx):
                                      "the real identifier space is 65536")
     if rw.violated != "C19_DistinctIdsX":
         raise vlib.InfraError("PingMC wrap config: expected C19_DistinctIds counterexample, got %s" % rw.violated)
+    # (e) the counter wraps through 0 (identifiers 3, 0, 1 modulo 4): every invariant holds whatever the identifier
+    rz = tlc_mc(ctx, "mc_wrap_through_zero", mc_cfg(3, 2 if quick else 3, leak=False, inv=INV + ["C19_NoLeak"], idspace=4, first=3,
+                                                    replyids="0, 1, 2, 3"), timeout=900)
+    cov["mc_wrap_through_zero"] = rz.summary()
+    if not rz.ok:
+        raise vlib.InfraError("PingMC (identifiers wrapping through 0) model-level failure: violated=%s error=%s" % (rz.violated, rz.error))
+    r.distinct += rz.distinct
+    r.generated += rz.generated
     states = r.distinct + rl.distinct + rf.distinct + rw.distinct
     trans = r.generated + rl.generated + rf.generated + rw.generated
     return hists, cex, cov, states, trans
@@ -97,6 +105,14 @@ def model_runs(ctx):
 def to_script(hist, rng):
     """TLC history (PingMC.hist) -> driver script."""
     fails = {e["p"] for e in hist if e["a"] == "sendfail"}
+    # a send failure that TLC placed later than the start of that ping (other pings registered, messages parsed
+    # in between) is forced with a send that hangs inside the connection and fails when released
+    blocked = set()
+    for p in fails:
+        i = max(k for k, e in enumerate(hist) if e["a"] == "start" and e["p"] == p)
+        j = max(k for k, e in enumerate(hist) if e["a"] == "sendfail" and e["p"] == p)
+        if j > i + 1:
+            blocked.add(p)
     burst = 1 if rng.random() < 0.5 else 0
     out = []
     inline = {}
@@ -114,18 +130,69 @@ def to_script(hist, rng):
         a = e["a"]
         if a == "start":
             out.append({"a": "start", "p": e["p"], "fam": e["fam"], "burst": burst,
-                        "fail": rng.choice(["addr", "write"]) if e["p"] in fails else "",
+                        "fail": "blockfail" if e["p"] in blocked else rng.choice(["addr", "write"]) if e["p"] in fails else "",
                         "inline": inline.get(e["p"], "") if e["p"] not in fails else ""})
         elif a == "reply":
             out.append({"a": "reply", "tgt": e["tgt"], "off": e["off"], "kind": e["kind"]})
+        elif a == "sendfail" and e["p"] in blocked:
+            out.append({"a": "release", "p": e["p"]})
         elif a == "timeout":
             out.append({"a": "timeout", "p": e["p"]})
         elif a == "ret":
             out.append({"a": "ret", "p": e["p"]})
+    for x in out:           # a burst start cannot contain a hanging send
+        if x["a"] == "start" and blocked:
+            x["burst"] = 0
     return out
 
 
 KINDS = ["echoReply4", "echoReply6", "echoRequest", "malformed"]
+
+
+def own_kind(f):
+    return "echoReply4" if f == "v4" else "echoReply6"
+
+
+def blockfail_script(rng):
+    """A's send hangs, B registers and is sent, A's send fails, C starts while B is pending; all answered."""
+    fa, fb, fc = (rng.choice(["v4", "v6"]) for _ in range(3))
+    out = [{"a": "start", "p": "p1", "fam": fa, "fail": "blockfail", "burst": 0, "inline": ""},
+           {"a": "start", "p": "p2", "fam": fb, "fail": "", "burst": 0, "inline": ""}]
+    if rng.random() < 0.5:
+        out.append({"a": "reply", "tgt": "noproc", "off": rng.randint(0, 3), "kind": rng.choice(KINDS)})
+    out.append({"a": "release", "p": "p1"})
+    out.append({"a": "start", "p": "p3", "fam": fc, "fail": "", "burst": 0, "inline": ""})
+    order = ["p2", "p3"]
+    rng.shuffle(order)
+    for p in order:
+        f = fb if p == "p2" else fc
+        if rng.random() < 0.8:
+            out += [{"a": "reply", "tgt": p, "off": 0, "kind": own_kind(f)}, {"a": "ret", "p": p}]
+        else:
+            out.append({"a": "timeout", "p": p})
+    return out
+
+
+def wrap_script(rng, first):
+    """Four pings whose identifiers straddle the uint16 wrap-around (65534, 65535, 0, 1), each answered or not."""
+    out = [{"a": "next", "v": first}]
+    ps = ["p1", "p2", "p3", "p4"]
+    fam = {p: rng.choice(["v4", "v6"]) for p in ps}
+    conc = rng.random() < 0.5
+    if conc:
+        for p in ps:
+            out.append({"a": "start", "p": p, "fam": fam[p], "fail": "", "burst": 0, "inline": ""})
+    for p in ps:
+        if not conc:
+            out.append({"a": "start", "p": p, "fam": fam[p], "fail": "", "burst": 0, "inline": own_kind(fam[p]) if rng.random() < 0.25 else ""})
+            if out[-1]["inline"]:
+                out.append({"a": "ret", "p": p})
+                continue
+        if rng.random() < 0.85:
+            out += [{"a": "reply", "tgt": p, "off": 0, "kind": own_kind(fam[p])}, {"a": "ret", "p": p}]
+        else:
+            out.append({"a": "timeout", "p": p})
+    return out
 
 
 def random_script(rng):
@@ -218,7 +285,10 @@ def drive_parallel(ctx, binary, scripts, nworkers, label, slot=120, nexts=None):
         with open(sp, "w") as f:
             for j, (i, sc) in enumerate(ch):
                 rec = {"a": "reset", "bid": i}
-                if nexts is not None:
+                if sc and sc[0].get("a") == "next":
+                    rec["next"] = sc[0]["v"]
+                    sc = sc[1:]
+                elif nexts is not None:
                     if i in nexts:
                         rec["next"] = nexts[i]
                 elif j == 0:
@@ -363,6 +433,8 @@ def run(ctx):
     scripts = [to_script(h, rng) for h in cex] + [to_script(h, rng) for h in hists[:nA]]
     n_tlc = len(scripts)
     scripts += [random_script(rng) for _ in range(nB)]
+    scripts += [blockfail_script(rng) for _ in range(12 if ctx.quick else 120)]
+    scripts += [wrap_script(rng, 65534 - rng.randint(0, 2)) for _ in range(6 if ctx.quick else 40)]
     scripts = [s for s in scripts if s]
     tp, st = drive_parallel(ctx, binary, scripts, 8 if ctx.quick else 12, "ping")
     lines = vlib.read_ndjson(tp)
